@@ -1193,10 +1193,12 @@ def sx_arctan2(y, x):
     if fy is not None and fx is not None:
         ang = math.atan2(fy, fx)
         # exact multiples of pi/4 only
+        if fy == 0 and fx == 0:
+            return Sx.const(0, ctx)
         for num in range(-4, 5):
             if abs(ang - num * math.pi / 4) < 1e-15:
                 return Sx.from_k(ctx.kpi * ctx.k(Fraction(num, 4)), ctx)
-        raise NotEncodable('arctan2 of concrete non-special values')
+        # any other concrete direction: an angle atom with exact (cos, sin)
     rho = k_sqrt(kx * kx + ky * ky, ctx)
     return new_angle(ctx, kx / rho, ky / rho)
 
